@@ -43,6 +43,11 @@ PROPS = {
     "C16": dict(engine="registrysim", quick=dict(plain=8000, race=0, det=60), thorough=dict(plain=200000, race=0, det=500)),
 }
 
+COMPONENTS_CODECSIM = {
+    "real": ["larking.CodecProto, larking.CodecJSON and the built-in HttpBody chunker (ReadNext / WriteNext)", "protobuf-go's protowire / protodelim error types"],
+    "stub": ["the io.Reader feeding ReadNext: a scripted fragmenting / fault-injecting reader", "the caller of ReadNext: a model of the mux's HTTP stream reader (carry dst[n:] into the next call, switch buffers)",
+             "no goroutines, no clock: codecsim is a single-threaded simulation of the byte stream only"],
+}
 COMPONENTS = {
     "real": ["larking package (all of Mux.ServeHTTP, registration, stream types, codecs, compressors, pools, proxy forwarders)",
              "protobuf-go, compress/gzip, gobwas/ws (server side), encoding/base64",
@@ -506,7 +511,7 @@ def check(prop, tier, seed):
         schedule_signatures_sum_over_workers=sched,
         engine_totals=extra,
         determinism=det,
-        components=COMPONENTS,
+        components=COMPONENTS_CODECSIM if PROPS[prop]["engine"] == "codecsim" else COMPONENTS,
         known_findings_hit={kid: h["n"] for kid, h in known_hits.items()},
         violations_reported=[dict(rule=v.get("rule"), context=v.get("context"), replay=p) for v, p in reported],
         harness_trouble=trouble[:3],
